@@ -200,6 +200,10 @@ def main():
                 po['confirmed_shards'] += 1
             elif v == 'counterexample':
                 cexs = r.get('counterexamples') or []
+                if any('NotDeterministic' in (m.get('message') or '') for m in (r.get('messages') or [])):
+                    inconclusive.append((r['label'], 'NotDeterministic: the code under test took different paths on identical decisions (hidden state carried between executions?)', r.get('path_tree')))
+                    po['notes'].append('NotDeterministic in shard %s' % r['label'])
+                    continue
                 if not cexs or '__error__' in cexs[0]:
                     harness_errors.append('%s: counterexample without realisable arguments: %s' % (r['label'], r.get('messages')))
                     continue
